@@ -73,9 +73,14 @@ class Struct:
     def elem(self, key, branches):
         return self._add('elem', [key] + list(branches))
 
-    def cat(self, name: str, ctrl: int, members: list, how: str = 'list') -> int:
-        assert len(members) == len(self.ctrls[ctrl - 1]['alts'])
-        return self._add('cat', members, v=ctrl, name=name, how=how)
+    def cat(self, name: str, ctrl: int, members: list, how: str = 'list', order: list | None = None) -> int:
+        """`members` are given in the order of the controller's alternatives; `order` (positions in that
+        list) is the order in which THE CATALOG lists them (default: the same order)."""
+        alts = self.ctrls[ctrl - 1]['alts']
+        assert len(members) == len(alts)
+        order = list(range(len(alts))) if order is None else list(order)
+        assert sorted(order) == list(range(len(alts)))
+        return self._add('cat', [members[j] for j in order], v=ctrl, name=name, how=how, names=[alts[j] for j in order])
 
     @property
     def nconf(self) -> int:
@@ -89,15 +94,17 @@ class Struct:
         return len(self.cols[0][1])
 
     # ------------------------------------------------------------------ TLA+
-    def module(self, name: str = 'CatalogGen', dec_sign: int = -1, sev_dec_sign: int = -1) -> str:
+    def module(self, name: str = 'CatalogGen', dec_sign: int = -1, sev_dec_sign: int = -1, csels: list | None = None) -> str:
         sign = {-1: '0 - 1', 1: '1'}
         ct = ',\n    '.join(
             f'[name |-> {tla_name(c["name"])}, alts |-> <<{", ".join(tla_name(a) for a in c["alts"])}>>]' for c in self.ctrls
         )
         nd = ',\n    '.join(
-            f'[op |-> "{n["op"]}", kids |-> <<{", ".join(str(k) for k in n["kids"])}>>, v |-> {n["v"]}, name |-> {tla_name(n["name"])}]'
+            f'[op |-> "{n["op"]}", kids |-> <<{", ".join(str(k) for k in n["kids"])}>>, v |-> {n["v"]}, name |-> {tla_name(n["name"])}, '
+            f'names |-> <<{", ".join(tla_name(a) for a in n.get("names", []))}>>]'
             for n in self.nodes
         )
+        cs = ', '.join('<<' + ', '.join(('0 - 1' if v < 0 else str(v)) for v in sel) + '>>' for sel in (csels or []))
         cl = ',\n    '.join(f'[name |-> {tla_name(n)}, vals |-> <<{", ".join(str(v) for v in vals)}>>]' for n, vals in self.cols)
         bt = ',\n    '.join(f'[name |-> {tla_name(n)}, val |-> {v}]' for n, v in self.betas)
         return f'''---- MODULE {name} ----
@@ -111,13 +118,14 @@ G_Cols == <<
 G_Betas == << {bt} >>
 G_DecSign == {sign[dec_sign]}
 G_SevDecSign == {sign[sev_dec_sign]}
+G_CSelSeq == << {cs} >>
 ====
 '''
 
     def cfg(self, invariants: list, *, record: bool, max_len: int = 2, max_step: int = 5, max_iter: int = 8,
-            first_setconf: bool = True) -> str:
+            first_setconf: bool = True, spec: str = 'Spec', conf_len: int = 0) -> str:
         inv = '\n'.join(f'INVARIANT {i}' for i in invariants)
-        return f'''SPECIFICATION Spec
+        return f'''SPECIFICATION {spec}
 CONSTANTS
  Label = "{self.label}"
  Ctrls <- G_Ctrls
@@ -132,11 +140,13 @@ CONSTANTS
  MaxIter = {max_iter}
  DecSign <- G_DecSign
  SevDecSign <- G_SevDecSign
+ CSelSeq <- G_CSelSeq
+ CMaxLen = {conf_len}
 {inv}
 '''
 
 
-MODEL_INVARIANTS = ['Valid', 'CountInv', 'IdsUnique', 'IdCanonical', 'Sync', 'ValueAgrees', 'Closure', 'IncDecInverse',
+MODEL_INVARIANTS = ['Valid', 'CountInv', 'IdsUnique', 'IdCanonical', 'Sync', 'SyncPos', 'ValueAgrees', 'Closure', 'IncDecInverse',
                     'PairInverse', 'SeveralOpposite', 'UnitMoves', 'IterOnce', 'IterProgress']
 
 
@@ -223,7 +233,8 @@ class Real:
             return ex.Elem({j: e for j, e in enumerate(k[1:], start=1)}, k[0])
         if op == 'cat':
             c = st.ctrls[n['v'] - 1]
-            alts = c['alts']
+            alts = c['alts']      # the controller's list
+            names = n['names']    # the catalog's own list (the same names; possibly in another order)
             if self.mutate == 'swap-members' and not getattr(self, '_swapped', False) and len(k) >= 2:
                 k = [k[1], k[0]] + k[2:]
                 self._swapped = True
@@ -232,9 +243,9 @@ class Real:
                 ctrl = self._Controller(c['name'], alts)
                 self.ctrl_objs[n['v']] = ctrl
             if n.get('how') == 'dict':
-                cat = self._Catalog.from_dict(n['name'], dict(zip(alts, k)), controlled_by=ctrl)
+                cat = self._Catalog.from_dict(n['name'], dict(zip(names, k)), controlled_by=ctrl)
             else:
-                cat = self._Catalog(n['name'], [self._Named(a, e) for a, e in zip(alts, k)], controlled_by=ctrl)
+                cat = self._Catalog(n['name'], [self._Named(a, e) for a, e in zip(names, k)], controlled_by=ctrl)
             if ctrl is None:
                 assert n['name'] == c['name'], 'an implicit controller carries the name of its first catalog'
                 self.ctrl_objs[n['v']] = cat.controlled_by
@@ -496,6 +507,68 @@ def s_gas(with_seg: bool = False) -> Struct:
     s.helper = helper
     s.features = ['generic_alt_specific_catalogs', 'shared-controller'] + (['nested', 'segmentation_catalogs'] if with_seg else [])
     return s
+
+
+def s_order(kind: str) -> Struct:
+    """Two catalogs governed by ONE controller and listing the same member names: in the same order
+    (`same`, the well-formed control) or in different orders (`Catalog.from_dict` filled in another order,
+    main constructor with two names exchanged, the misordered catalog built first / nested in a member of
+    another catalog / governed by the implicit controller of the first catalog).  A second controller makes
+    it a space of 6 configurations.  Every member has its own value on every row."""
+    s = Struct('ord_' + kind)
+    implicit = kind == 'implicit'
+    k = s.ctrl('spec', ['lin', 'log', 'sq'], implicit=implicit)
+    o = s.ctrl('other', ['off', 'on'])
+    x, y = s.var('x'), s.var('y')
+    order = {'same': None, 'dict': [2, 0, 1], 'list': [1, 0, 2], 'first': [1, 2, 0], 'nested': [2, 1, 0], 'implicit': [1, 2, 0]}[kind]
+    m1 = [s.times(x, s.num(3)), s.num(50), s.plus(y, s.num(70))]
+    m2 = [s.num(1000), s.times(x, s.num(2000)), s.num(9000)]
+    if kind == 'first':   # the catalog that disagrees with the controller is the first one built
+        a2 = s.cat('second', k, m2, how='dict', order=order)
+        a1 = s.cat('first', k, m1)
+    else:
+        a1 = s.cat('spec' if implicit else 'first', k, m1)
+        a2 = s.cat('second', k, m2, how=('list' if kind == 'list' else 'dict'), order=order)
+    if kind == 'nested':
+        b = s.cat('sw', o, [s.num(100000), s.plus(a2, s.num(200000))])
+        s.plus(a1, b)
+    else:
+        b = s.cat('sw', o, [s.num(100000), s.num(200000)])
+        s.plus(s.plus(a1, a2), b)
+    s.features = ['member-order', 'shared-controller'] + (['misordered'] if order else ['same-order']) + \
+                 (['nested'] if kind == 'nested' else []) + (['shared-implicit-controller'] if implicit else [])
+    return s
+
+
+def order_structures(tier: str) -> list:
+    """Part (c): the first one is the well-formed control."""
+    out = [s_order('same'), s_order('dict'), s_order('list')]
+    if tier == 'thorough':
+        out += [s_order('first'), s_order('nested'), s_order('implicit')]
+    return out
+
+
+def selections(st: Struct, tier: str) -> list:
+    """Part (a): the selections a Configuration object is created with / assigned (one entry per controller of
+    the structure, -1 = not mentioned).  quick: two full configurations differing in one controller, one
+    differing in all, and two selections mentioning one controller only; thorough: every full and every
+    one-controller selection."""
+    from itertools import product
+
+    sizes = [len(c['alts']) for c in st.ctrls]
+    full = [list(f) for f in product(*[range(n) for n in sizes])]
+    part = [[(v if c == d else -1) for d in range(len(sizes))] for c in range(len(sizes)) for v in range(sizes[c])]
+    if tier == 'thorough':
+        return full + part
+    last = [n - 1 for n in sizes]
+    one = [0] * len(sizes)
+    one[0] = min(1, sizes[0] - 1)
+    quick = [[0] * len(sizes), one, last, part[-1], part[0]]
+    out = []
+    for q in quick:
+        if q not in out:
+            out.append(q)
+    return out
 
 
 def structures(tier: str) -> list:
